@@ -1616,8 +1616,8 @@ impl Fsm {
                     let externalEventTmp = externalQueue_receiver.lock().unwrap().recv().unwrap();
                     #[cfg(feature = "Verif_Hooks")]
                     self.tracer.trace(&format!(
-                        "verif raw {:?} {:?}",
-                        externalEventTmp.name, externalEventTmp.invoke_id
+                        "verif raw {:?} {:?} {:?}",
+                        externalEventTmp.name, externalEventTmp.invoke_id, externalEventTmp.origin
                     ));
                     if externalEventTmp.name.starts_with(EVENT_DONE_INVOKE_PREFIX) {
                         externalEvent = externalEventTmp;
